@@ -3,7 +3,7 @@ From Coq Require Import List String.
 From VQ.Gen Require Import pat_vq_decode.
 Import ListNotations.
 Open Scope string_scope.
-Lemma pin_pat_vq_decode : pat_vq_decode =
+Definition pinned_pat_vq_decode : list (string * string) :=
   [("rearrange", "... h d -> ... (h d)");
    ("pack_one", "b * h");
    ("rearrange", "b n h -> b h n");
@@ -12,4 +12,5 @@ Lemma pin_pat_vq_decode : pat_vq_decode =
    ("rearrange", "b h n d -> b n (h d)");
    ("unpack_one", "b * d");
    ("rearrange", "b ... d -> b d ...")].
+Lemma pin_pat_vq_decode : pat_vq_decode = pinned_pat_vq_decode.
 Proof. reflexivity. Qed.
